@@ -152,6 +152,13 @@ def run(c):
                         "Parse(Print(d)) != d: missing %s, unexpected %s" % (missing[:3], extra[:3]),
                         {"dictionary": expect, "printed": g["lines"], "parsed": g["parsed"]})
             continue
+        if g.get("restored") != expect or g.get("used_same") != 1:
+            c.violation("yaml:restart-roundtrip:%s" % shape,
+                        "the restart dump of the dictionary (write_restart_file -> restart constructor) does not give back the tree / "
+                        "the record of used values: restored %s, used values identical: %s" % (
+                            str(g.get("restored"))[:200], g.get("used_same")),
+                        {"dictionary": expect, "restored": g.get("restored"), "used_same": g.get("used_same")})
+            continue
         c.cov["traces_validated_against_impl"] += 1
         ml = [[2 * l["ind"], NAMES[l["name"]], VALUES[l["val"]]] for l in model_lines[i]]
         if ml != g["lines"]:
